@@ -1,6 +1,6 @@
 SPECIFICATION GenSpecP
 CONSTANTS Names <- NamesQ Depth = 1 Vals <- ValsQ Sep = 46 Design = "list" Base <- NoBase MaxSlots = 3
-  Strs <- StrsQ Seps <- SepsQ Asgs <- AsgsQ Elems <- ElemsQ
+  Ends <- Ends0 Strs <- StrsQ Seps <- SepsQ Asgs <- AsgsQ Elems <- ElemsQ
 CONSTRAINT BoundP
 VIEW ViewP
 ACTION_CONSTRAINT Emit
